@@ -36,6 +36,68 @@ def real_order(n, adj):
     return ('ok', leaves, order)
 
 
+def real_order_late(n, adj, late):
+    """the same graph built the way the class documents it may be: dependencies may name nodes that are added
+    later.  The nodes in `late` are added only after a first finalize() complained about them; the second
+    finalize() must link everything."""
+    from django_evolution.utils.graph import DependencyGraph
+    g = DependencyGraph()
+    for i in range(n):
+        if i not in late:
+            g.add_node('n%d' % i)
+    for x, ds in enumerate(adj):
+        if x in late:
+            continue
+        for d in ds:
+            g.add_dependency('n%d' % x, 'n%d' % d)
+    complained = False
+    try:
+        g.finalize()
+    except AssertionError:
+        complained = True
+    if not complained:
+        return ('skip', None, False)       # nothing named a late node: the graph is closed now
+    for i in sorted(late):
+        g.add_node('n%d' % i)
+    for x in sorted(late):
+        for d in adj[x]:
+            g.add_dependency('n%d' % x, 'n%d' % d)
+    try:
+        g.finalize()
+        order = [int(nd.key[1:]) for nd in g.get_ordered()]
+    except Exception as e:
+        return ('error', type(e).__name__, complained)
+    return ('ok', order, complained)
+
+
+def late_node_cases(ctx, quick):
+    """acyclic graphs, some of whose nodes arrive after a first finalize(): every requirement still holds"""
+    import itertools
+    done = 0
+    for n in (2, 3, 4):
+        for adj in graphs_exhaustive(n, False):
+            if not is_acyclic(n, adj) or not any(adj):
+                continue
+            for k in (1, 2):
+                for late in itertools.combinations(range(n), k):
+                    if quick and n == 4 and (done % 5):
+                        done += 1
+                        continue
+                    done += 1
+                    r = real_order_late(n, adj, set(late))
+                    ctx.count('late_nodes:%s' % r[0])
+                    if r[0] == 'skip':
+                        continue
+                    ctx.case({'n': n, 'adj': adj, 'late': list(late)}, nontrivial=True, sample_cap=3)
+                    rep = {'kind': 'late', 'n': n, 'adj': adj, 'late': list(late), 'observed': list(r)}
+                    if r[0] != 'ok':
+                        ctx.fail(None, 'an acyclic graph whose nodes %s were added after a first finalize() cannot be '
+                                 'ordered: %s' % (list(late), r[1]), rep)
+                    elif not order_ok(n, adj, r[1]):
+                        ctx.fail(None, 'a requirement registered before its node existed is not respected once the node '
+                                 'was added: order %s' % (r[1],), rep)
+
+
 def is_acyclic(n, adj):
     state = [0] * n
 
@@ -190,6 +252,7 @@ def run(ctx):
                         'execute_tasks walks batches in list order, new models first, then task_evolutions in '
                         'OrderedDict order (read from the source; exercised end-to-end by the Evolver rig in C08/C17)']
     quick = ctx.tier == 'quick'
+    late_node_cases(ctx, quick)
     # ---- core: exhaustive + random -----------------------------------------
     reqs, cases = [], []
     for n, loops in ((1, True), (2, True), (3, True), (4, False)):
@@ -290,6 +353,10 @@ def replay(ctx, obj):
         print('graph n=%d adj=%r -> %r (acyclic=%s)' % (r['n'], r['adj'], real, is_acyclic(r['n'], r['adj'])))
         bad = (real[0] == 'ok' and not order_ok(r['n'], r['adj'], real[2]))
         return 1 if bad else 0
+    if r.get('kind') == 'late':
+        real = real_order_late(r['n'], r['adj'], set(r['late']))
+        print('graph n=%d adj=%r late=%r -> %r' % (r['n'], r['adj'], r['late'], real))
+        return 0 if real[0] == 'ok' and order_ok(r['n'], r['adj'], real[1]) else 1
     if r.get('kind') == 'units':
         real = real_batches(r['units'])
         ex = [i for _, ids in real for i in ids]
